@@ -15,7 +15,7 @@ META = dict(
     functions_encoded=loop.FUNCTIONS,
     stubs=loop.STUBS,
     assumptions=loop.LOOP_ASSUMPTIONS,
-    bounds=dict(quick="K=2 trial steps, n=1, m in {0,1}, all six policies", thorough="K=3 (4 without constraints), plus inequality rows"),
+    bounds=dict(quick="K=2 trial steps, n=1, m in {0,1} for all six policies and m=2 (two equalities; equality+inequality, with step-failure results) for the dual-norm and constant policies", thorough="K=3 (4 without constraints), plus inequality rows"),
     outside=["runs longer than K trial steps", "floating-point overflow of 10*rho"],
     explanation="rho argument of successive trial steps and solver.rho read in callbacks, for every path of the real loop and the real penalty strategies.",
 )
@@ -24,6 +24,8 @@ META = dict(
 def tasks(tier):
     if tier == "quick":
         combos = [dict(policy=p, cons=["eq0"]) for p in loop.POLICIES] + [dict(policy=p, cons=[]) for p in ("Constant", "DualNorm", "ObjectiveFilter")]
+        # two constraint rows: the multiplier norm is a genuine vector norm (max-norm and 2-norm differ)
+        combos += [dict(policy="DualNorm", cons=["eq0", "eq0"]), dict(policy="DualNorm", cons=["eq0", "ge"], step_failures=True), dict(policy="Constant", cons=["eq0", "eq0"])]
         return loop.loop_tasks(combos, 2) + loop.loop_tasks([dict(policy=p, cons=[]) for p in loop.POLICIES], 4)
-    combos = [dict(policy=p, cons=c) for p in loop.POLICIES for c in (["eq0"], ["ge"])]
+    combos = [dict(policy=p, cons=c) for p in loop.POLICIES for c in (["eq0"], ["ge"])] + [dict(policy="DualNorm", cons=["eq0", "eq0"]), dict(policy="DualNorm", cons=["eq0", "ge"], step_failures=True), dict(policy="DualNorm", cons=["ranged", "le"], vars=["lower"])]
     return loop.loop_tasks(combos, 3) + loop.loop_tasks([dict(policy=p, cons=[]) for p in loop.POLICIES], 4)
